@@ -31,6 +31,13 @@ CXXFLAGS := -std=c++14 -O1 -g1 -gdwarf-4 -fsanitize-coverage=trace-pc-guard,trac
 ENGCXXFLAGS := -std=c++14 -O1 -g1 -gdwarf-4 -w
 LDFLAGS := -Wl,--wrap=__cxa_guard_acquire -Wl,--wrap=__cxa_guard_release -Wl,--wrap=__cxa_guard_abort $(foreach f,inet_ntoa localtime gmtime ctime asctime strtok rand strerror gethostbyname ether_ntoa getservbyname setlocale,-Wl,--wrap=$(f))
 endif
+ifeq ($(BUILD),cov)
+# line coverage of /repo/src per engine (tools/coverage.sh); not used by any registered check
+CXX := g++
+CXXFLAGS := -std=c++14 -O0 -g1 --coverage -w
+ENGCXXFLAGS := -std=c++14 -O1 -g1 -w -DVERIF_COV
+LDFLAGS := --coverage
+endif
 ifeq ($(BUILD),plain)
 CXX := g++
 CXXFLAGS := -std=c++14 -O2 -g1 -w
